@@ -377,9 +377,20 @@ structure Env where
   cfg : Cfg
   progs : List (Path × Prog)
   preloaded : List ModKey        -- names already in `sys.modules` (interpreter, stdlib)
+  /-- `build(tasks=[…])`: plain functions `(defining file, __name__, body tag)` in the order given. -/
+  ptasks : List (Path × String × Nat) := []
+
+def ptaskObj (f : Path) (n : String) (tag : Nat) : FnObj :=
+  { file := f, fname := n, params := [], defaults := [], tag := tag, marked := true, metaName := n, metaId := none, metaKwargs := [] }
+
+/-- generation 0 is reserved for the function objects handed over through `build(tasks=…)`. -/
+def ptaskHeap : Nat → List (Path × String × Nat) → List (ObjId × FnObj)
+  | _, [] => []
+  | i, (f, n, t) :: rest => ((0, i), ptaskObj f n t) :: ptaskHeap (i + 1) rest
 
 def Env.init (env : Env) : World :=
-  { heap := [], registry := [], modules := env.preloaded.map (fun k => (k, { src := none, ns := [] })), nextGen := 0 }
+  { heap := ptaskHeap 0 env.ptasks, registry := [],
+    modules := env.preloaded.map (fun k => (k, { src := none, ns := [] })), nextGen := 1 }
 
 def loadAs (env : Env) (w : World) (key : ModKey) (src : Path) : World × Module :=
   let r := execFile env.progs env.cfg.root w src
@@ -608,10 +619,19 @@ def failDupsLoop : List (Path × String) → List Report → List Report
 
 def failDups (rs : List Report) : List Report := failDupsLoop [] rs
 
-/-- the steps of `pytask_collect` before `session.tasks` is filled, as listed by the translator. -/
+/-- `_collect_from_tasks` for plain functions: `task()` wraps the function (registering it), the registration is
+removed again, and the function is collected under `(get_file(fn), fn.__name__)`. -/
+def ptaskReports : Nat → List (Path × String × Nat) → List Report
+  | _, [] => []
+  | i, (f, n, _) :: rest => Report.succ f n (0, i) :: ptaskReports (i + 1) rest
+
+/-- `_collect_from_paths`. -/
+def pathReports (env : Env) (enum : List String → List String) : World × List Report :=
+  (notIgnoredPaths env.fs env.cfg.ignored env.cfg.paths).foldl (collectStep env enum) (env.init, [])
+
+/-- the reports of `pytask_collect` before the duplicate-signature pass: paths, programmatic tasks, left-overs. -/
 def rawReports (env : Env) (enum : List String → List String) : World × List Report :=
-  let r := (notIgnoredPaths env.fs env.cfg.ignored env.cfg.paths).foldl (collectStep env enum) (env.init, [])
-  (r.1, r.2 ++ leftovers r.1)
+  ((pathReports env enum).1, (pathReports env enum).2 ++ ptaskReports 0 env.ptasks ++ leftovers (pathReports env enum).1)
 
 def collectReports (env : Env) (enum : List String → List String) : World × List Report :=
   ((rawReports env enum).1,
